@@ -87,7 +87,21 @@ func isMaxIntConst(fn *FuncNode, e ast.Expr) bool {
 // satLoops finds loops `for … { … acc += e … acc = math.MaxInt … }` and checks that the saturation test covers both the
 // accumulator and the addend.
 func checkSaturatingTotals(p *Prog, r *Result, fns ...*FuncNode) {
+	// a total accumulated in a helper of the same package (one call away) belongs to the function that calls it
+	seen := map[*FuncNode]bool{}
+	var all []*FuncNode
 	for _, fn := range fns {
+		if fn == nil {
+			continue
+		}
+		for _, g := range p.withLocalCallees(fn, 1) {
+			if g.Lit == nil && g.Body != nil && !seen[g] {
+				seen[g] = true
+				all = append(all, g)
+			}
+		}
+	}
+	for _, fn := range all {
 		n := 0
 		fn.inspectBody(func(x ast.Node) bool {
 			var body *ast.BlockStmt
